@@ -514,7 +514,7 @@ def constructors_strategy():
     atoms = lambda m: st.lists(st.fixed_dictionaries({"z": pick(_Z_CTOR), "xyz": _xyz}), min_size=m, max_size=m)  # noqa: E731
     common = lambda m: {  # noqa: E731
         "atoms": atoms(m),
-        "rotate": pick([37, 0, 1, 99, 2**31]),
+        "rotate": pick([37, 0, 1, 99, 2**31, True, False]),  # documented as "bool or int"
         "store": pick([False, True]),
         "aim": pick(["default", "becke2", "array", "default"]),
         "dseed": st.integers(0, 2**31 - 1),
